@@ -115,6 +115,32 @@ def run_c20(rep):
     fam_stdlib.stdlib_family(rep, n, ops)
 
 
+def run_c06(rep):
+    import fam_codec
+    n, depth = sizes(rep, (2000, 6), (50000, 12))
+    fam_codec.codec_family(rep, n, depth)
+    # names bound by import lines are still usable after a load
+    src = ("import math\nfrom bardic.stdlib.dice import roll\nfrom bardic.stdlib.economy import Wallet\n"
+           ":: Start\n~ w = Wallet(3)\nhi\n+ [go] -> Next\n\n:: Next\n~ w2 = Wallet(math.floor(2.5))\n"
+           "~ name = roll.__name__\nok {w2.gold} {name} {w.gold}\n")
+    from common import quiet
+    import json as _json
+    try:
+        with quiet():
+            from bardic.runtime.engine import BardEngine
+            story = corr_play.compile_source(src)
+            e = BardEngine(story)
+            doc = _json.loads(_json.dumps(e.save_state()))
+            e2 = BardEngine(corr_play.compile_source(src))
+            e2.load_state(doc)
+            out = e2.choose(0).content
+        if "ok 2 roll 3" not in out:
+            rep.violations.append({"cls": None, "what": f"imported names unusable after load: {out!r}", "family": "c06-imports", "source": src})
+    except Exception as ex:  # noqa
+        rep.violations.append({"cls": None, "what": f"imported names unusable after load: {type(ex).__name__}: {ex}", "family": "c06-imports", "source": src})
+    rep.coverage["evaluations"] = rep.coverage.get("evaluations", 0) + 1
+
+
 # ------------------------------------------------------------------------------------------------ registry
 
 PROPS = {
@@ -231,6 +257,19 @@ PROPS = {
                    "(non-negative price), sell_atomic, relationship_ranges, threshold_iff_upcross, dict round trips, "
                    "roll_bounds; float weights / rates are outside the model (partial, named)",
         assumptions=["integer weights, values and amounts; rates and discounts are dyadic rationals so that the float arithmetic of the real code is exact"],
+    ),
+    "C06": dict(
+        theorems=["Bardic.Codec." + t for t in ["codec_roundtrip", "roundtrip_list", "roundtrip_kvs", "dec_typed",
+                                                "lookup_encKVs_none", "encPublic_eq_encKVs"]],
+        run=run_c06,
+        rule="random value trees (depth ≤ 6 quick / 12 thorough) over None, bool, int, str, list, tuple, string-keyed dict, "
+             "plain attribute objects (Card, Deck holding lists/dicts of values), custom-serialised objects (Purse, whose "
+             "data holds further values), stdlib Wallet / Inventory / Relationship; through the real save_state → json → "
+             "load_state of a fresh engine; serialised form and rebuilt value compared with the Lean model; equality, type "
+             "and a method call checked on the real result; plus an import-names probe; distinct by hash of the value",
+        level_text="proof: codec_roundtrip — for every value of the supported domain (explicit decidable predicate: no "
+                   "reserved _type key, registered classes, plain objects without underscore attributes) at any nesting "
+                   "depth, decode(encode(v)) is v with tuples as lists, by mutual structural induction on the value tree",
     ),
 }
 
